@@ -122,7 +122,7 @@ func runC15(env *core.Env) {
 				out = append(out, core.R("", "--json", "new", "task", "--title", "t", "--epic", e))
 			}
 		}
-		if len(tasks)+2 <= maxTasks && len(epics) < 3 {
+		if env.Thorough() && len(tasks)+2 <= maxTasks && len(epics) < 3 {
 			out = append(out, core.R("", "--json", "plan").In(`{"title":"P","tasks":[{"title":"a"},{"title":"b","after":["a"]}]}`))
 		}
 		for _, t := range tasks {
@@ -234,7 +234,7 @@ func runC15(env *core.Env) {
 		"exhaustive": b.Exhaustive, "cap_hit": b.CapHit, "bfs_depth": b.DepthDone, "states_checked": checked,
 		"states_where_progress_is_required": progressStates, "stuck_states": stuck, "states_with_waits_for_cycle": cyclic,
 		"unconfirmed_candidates": unconfirmed.Load(),
-		"bound":                  fmt.Sprintf("2 epics (+1 via plan), <=%d tasks; new task (root/in epic), set epic, sequence and sequence rm on every task pair and epic pair, done/todo, prune, plan; BFS to fixpoint on the canonical graph", maxTasks),
+		"bound":                  fmt.Sprintf("2 epics (thorough: +1 via plan), <=%d tasks; new task (root/in epic), set epic, sequence and sequence rm on every task pair and epic pair, done/todo, prune, plan; BFS to fixpoint on the canonical graph", maxTasks),
 	}, []string{"state key = canonical labelled graph"})
 	_, _ = e1, e2
 }
